@@ -308,12 +308,14 @@ def build(p):
                 if fut is None:
                     continue
                 state["futs"][j] = fut
-                if sb.get("cb"):
+                def bad_cb(f_):
+                    E.emit("FnCall", k=0, s="cb:raise")
+                    raise LayerError(0, "callback")
+                if sb.get("cb_raise") == "first":
+                    fut.add_done_callback(bad_cb)      # a raising callback registered BEFORE the others
+                if sb.get("cb") or sb.get("cb_raise") == "first":
                     H.add_cb(fut, j, 1)
-                if sb.get("cb_raise"):
-                    def bad_cb(f_):
-                        E.emit("FnCall", k=0, s="cb:raise")
-                        raise LayerError(0, "callback")
+                if sb.get("cb_raise") and sb.get("cb_raise") != "first":
                     fut.add_done_callback(bad_cb)
                 if sb.get("nested_cb"):
                     def ncb(f_, j=j):
